@@ -188,11 +188,15 @@ pub struct RecIface<'a, W: Copy, const KIND: u8> {
     pub px_count: u64,
     pub px_words: usize,
     pub px_first: Option<W>,
+    /// words of the first pixel of the last burst (up to 3)
+    pub px_first3: [Option<W>; 3],
+    /// words of the last pixel of the last burst (up to 3)
+    pub px_last3: [Option<W>; 3],
     pub repeated: bool,
 }
 impl<'a, W: Copy, const KIND: u8> RecIface<'a, W, KIND> {
     pub fn new(clock: &'a Clock) -> Self {
-        RecIface { clock, ncmd: 0, cmds: [NO_CMD; 4], px_calls: 0, px_after_cmds: 0, px_count: 0, px_words: 0, px_first: None, repeated: false }
+        RecIface { clock, ncmd: 0, cmds: [NO_CMD; 4], px_calls: 0, px_after_cmds: 0, px_count: 0, px_words: 0, px_first: None, px_first3: [None; 3], px_last3: [None; 3], repeated: false }
     }
     pub fn cmd(&self, i: usize) -> RecCmd {
         self.cmds[i % 4]
@@ -231,10 +235,20 @@ impl<W: Copy, const KIND: u8> Interface for RecIface<'_, W, KIND> {
         self.px_words = N;
         self.repeated = false;
         let mut n = 0u64;
+        self.px_first3 = [None; 3];
+        self.px_last3 = [None; 3];
         for p in pixels {
+            let mut w3 = [None; 3];
+            let mut i = 0;
+            while i < 3 {
+                if i < N { w3[i] = Some(p[i]); }
+                i += 1;
+            }
             if n == 0 && N > 0 {
                 self.px_first = Some(p[0]);
+                self.px_first3 = w3;
             }
+            self.px_last3 = w3;
             n += 1;
         }
         self.px_count = n;
@@ -246,9 +260,17 @@ impl<W: Copy, const KIND: u8> Interface for RecIface<'_, W, KIND> {
         self.px_after_cmds = self.ncmd;
         self.px_words = N;
         self.repeated = true;
+        let mut w3 = [None; 3];
+        let mut i = 0;
+        while i < 3 {
+            if i < N { w3[i] = Some(pixel[i]); }
+            i += 1;
+        }
         if N > 0 {
             self.px_first = Some(pixel[0]);
         }
+        self.px_first3 = w3;
+        self.px_last3 = w3;
         self.px_count = count as u64;
         Ok(())
     }
@@ -268,5 +290,80 @@ impl<const W: u16, const H: u16> Model for FbModel<W, H> {
         let madctl = SetAddressMode::from(options);
         di.write_command(madctl)?;
         Ok(madctl)
+    }
+}
+
+// ------------------------------------------------------------------------------ controller decoder
+/// Interface mock that decodes DCS commands on the fly into the controller state the properties talk
+/// about (executable twin of the `Ctrl` decoder of DESIGN.md 3.2, restricted to what init sequences use).
+pub struct CtrlMock<'a, const KIND: u8> {
+    pub clock: &'a Clock,
+    /// commands received (including a software reset)
+    pub n_cmds: u32,
+    /// commands received after the reset phase (model commands)
+    pub first_cmd: Option<(u8, usize)>,
+    pub first_cmd_op: Option<u32>,
+    pub n_swreset: u32,
+    pub sleeping: bool,
+    pub on: bool,
+    pub madctl: Option<u8>,
+    pub colmod: Option<u8>,
+    pub inverted: Option<bool>,
+    pub ramwr: u32,
+    pub px_calls: u32,
+    pub t_slp_ns: Option<u64>,
+    /// minimum spacing observed between consecutive sleep-in/sleep-out commands
+    pub min_slp_gap_ns: u64,
+    pub last_op: Option<u32>,
+}
+impl<'a, const KIND: u8> CtrlMock<'a, KIND> {
+    pub fn new(clock: &'a Clock) -> Self {
+        CtrlMock { clock, n_cmds: 0, first_cmd: None, first_cmd_op: None, n_swreset: 0, sleeping: true, on: false, madctl: None,
+                   colmod: None, inverted: None, ramwr: 0, px_calls: 0, t_slp_ns: None, min_slp_gap_ns: u64::MAX, last_op: None }
+    }
+}
+impl<const KIND: u8> Interface for CtrlMock<'_, KIND> {
+    type Word = u8;
+    type Error = MockError;
+    const KIND: InterfaceKind = kind_of(KIND);
+    fn send_command(&mut self, command: u8, args: &[u8]) -> Result<(), MockError> {
+        let k = self.clock.op()?;
+        self.last_op = Some(k);
+        if self.first_cmd.is_none() {
+            self.first_cmd = Some((command, args.len()));
+            self.first_cmd_op = Some(k);
+        }
+        self.n_cmds += 1;
+        match (command, args.len()) {
+            (0x01, 0) => { self.n_swreset += 1; self.sleeping = true; self.on = false; }
+            (0x10, 0) | (0x11, 0) => {
+                let now = self.clock.ns.get();
+                if let Some(t) = self.t_slp_ns {
+                    let gap = now - t;
+                    if gap < self.min_slp_gap_ns { self.min_slp_gap_ns = gap; }
+                }
+                self.t_slp_ns = Some(now);
+                self.sleeping = command == 0x10;
+            }
+            (0x28, 0) => self.on = false,
+            (0x29, 0) => self.on = true,
+            (0x20, 0) => self.inverted = Some(false),
+            (0x21, 0) => self.inverted = Some(true),
+            (0x36, 1) => self.madctl = Some(args[0]),
+            (0x3A, 1) => self.colmod = Some(args[0]),
+            (0x2C, _) | (0x3C, _) => self.ramwr += 1,
+            _ => {}
+        }
+        Ok(())
+    }
+    fn send_pixels<const N: usize>(&mut self, _pixels: impl IntoIterator<Item = [u8; N]>) -> Result<(), MockError> {
+        self.clock.op()?;
+        self.px_calls += 1;
+        Ok(())
+    }
+    fn send_repeated_pixel<const N: usize>(&mut self, _pixel: [u8; N], _count: u32) -> Result<(), MockError> {
+        self.clock.op()?;
+        self.px_calls += 1;
+        Ok(())
     }
 }
